@@ -66,6 +66,9 @@ type marks map[string]bool
 func (m marks) list() []string { return sortedKeys(m) }
 
 type effEdge struct {
+	// Guard: for a hand-written maximum (`if v > x { x = v }`) the test
+	// that decides whether the store happens
+	Guard  *ssa.If
 	Target string
 	Op     string
 	Terms  []*term // alternatives
@@ -257,10 +260,76 @@ func (e *effects) extract() {
 							ts = []*term{atom("elems")}
 						}
 					}
+					// `if v > x { x = v }`: the hand-written maximum
+					var guard *ssa.If
+					if ts == nil && op == "SET" {
+						for _, fct := range factsAt(x.Block()) {
+							cond, truth := normCond(fct.Cond, fct.Truth)
+							cmp, isCmp := cond.(*ssa.BinOp)
+							if !isCmp || !truth {
+								continue
+							}
+							sameVal := func(a, b ssa.Value) bool {
+								if a == b {
+									return true
+								}
+								// the same component of the same value, written twice
+								fa, ok1 := a.(*ssa.Field)
+								fb, ok2 := b.(*ssa.Field)
+								if ok1 && ok2 && fa.X == fb.X && fa.Field == fb.Field {
+									return true
+								}
+								la, ok1 := a.(*ssa.UnOp)
+								lb, ok2 := b.(*ssa.UnOp)
+								if ok1 && ok2 && la.Op == token.MUL && lb.Op == token.MUL && c.sameAddr(la.X, lb.X) {
+									// two loads of one field of a local that is not written
+									// between them (every store to it precedes both)
+									fa, isFA := la.X.(*ssa.FieldAddr)
+									if !isFA {
+										return false
+									}
+									al, isAl := fa.X.(*ssa.Alloc)
+									if !isAl || al.Heap {
+										return false
+									}
+									for _, r := range *al.Referrers() {
+										switch y := r.(type) {
+										case *ssa.Store:
+											if y.Addr == ssa.Value(al) && !(instrDominates(y, la) && instrDominates(y, lb)) {
+												return false
+											}
+										case *ssa.FieldAddr:
+											for _, r2 := range *y.Referrers() {
+												if st, isSt := r2.(*ssa.Store); isSt && st.Addr == ssa.Value(y) && !(instrDominates(st, la) && instrDominates(st, lb)) {
+													return false
+												}
+											}
+										case *ssa.UnOp, *ssa.DebugRef:
+										default:
+											return false
+										}
+									}
+									return true
+								}
+								return false
+							}
+							bigger := func(a, b ssa.Value) bool { return sameVal(a, x.Val) && e.loadsNode(b, tgt) }
+							switch cmp.Op {
+							case token.GTR, token.GEQ:
+								if bigger(cmp.X, cmp.Y) {
+									op, guard = "MAX", fct.If
+								}
+							case token.LSS, token.LEQ:
+								if bigger(cmp.Y, cmp.X) {
+									op, guard = "MAX", fct.If
+								}
+							}
+						}
+					}
 					if ts == nil {
 						ts = e.terms(x.Val, 0, map[ssa.Value]bool{}, m)
 					}
-					e.add(&effEdge{Target: tgt, Op: op, Terms: ts, Marks: m, Site: x, Fn: f, Counter: countKind(x.Val.Type()) != ""})
+					e.add(&effEdge{Target: tgt, Op: op, Terms: ts, Marks: m, Site: x, Fn: f, Counter: countKind(x.Val.Type()) != "", Guard: guard})
 				case *ssa.MapUpdate:
 					tgt := e.elemNode(x.Map)
 					if tgt == "" {
@@ -609,7 +678,7 @@ func (e *effects) expand() {
 				}
 				continue
 			}
-			byKey[k] = &effEdge{Target: ed.Target, Op: ed.Op, Terms: []*term{t}, Marks: m, Site: ed.Site, Fn: ed.Fn, Counter: ed.Counter}
+			byKey[k] = &effEdge{Target: ed.Target, Op: ed.Op, Terms: []*term{t}, Marks: m, Site: ed.Site, Fn: ed.Fn, Counter: ed.Counter, Guard: ed.Guard}
 			keys = append(keys, k)
 		}
 		sort.Strings(keys)
